@@ -362,6 +362,93 @@ pub fn cases(tier: Tier) -> Vec<Case08> {
     out
 }
 
+/// Database-wide default fill: for every class and every plainly serializing canonical property
+/// that has a (possibly inherited) default, the pair [X{p = some other value}, X{}] must read
+/// back with X#2.p = that default.
+#[derive(Clone, Debug, Serialize, Deserialize)]
+pub struct CaseDb {
+    pub class: String,
+    pub prop: String,
+}
+
+pub fn db_cases() -> Vec<CaseDb> {
+    let d = specdb::db();
+    let mut classes: Vec<String> = d.classes.keys().map(|k| k.to_string()).collect();
+    classes.sort();
+    let mut out = Vec::new();
+    for c in &classes {
+        let mut names: std::collections::BTreeSet<String> = std::collections::BTreeSet::new();
+        if let Some(chain) = specdb::class_chain(c) {
+            for cc in chain {
+                for (p, _) in cc.default_properties.iter() {
+                    names.insert(p.to_string());
+                }
+            }
+        }
+        for p in names {
+            if p == "Name" || p == "UniqueId" {
+                continue;
+            }
+            if let Lookup::Known(k) = specdb::lookup(c, &p) {
+                if matches!(k.ser, Ser::Serializes | Ser::As { .. }) && k.canonical == p {
+                    out.push(CaseDb { class: c.clone(), prop: p });
+                }
+            }
+        }
+    }
+    out
+}
+
+pub fn judge_db(c: &CaseDb) -> Vec<(String, String)> {
+    let mut out = Vec::new();
+    let class = c.class.as_str();
+    let dflt = match specdb::default_value(class, &c.prop) {
+        Some(v) => v.clone(),
+        None => return out,
+    };
+    // a value of the same type that differs from the default
+    let other = crate::vals::alphabet(dflt.ty(), crate::vals::Codec::Binary, false).into_iter().map(|l| l.v).find(|v| r(v) != r(&dflt));
+    let other = match other {
+        Some(v) => v,
+        None => return out,
+    };
+    let want = match expect_binary_value(class, &c.prop, &dflt) {
+        Some(x) => x,
+        None => return out,
+    };
+    for order in 0..2 {
+        let a = InstanceBuilder::new(class).with_name("has").with_property(c.prop.as_str(), other.clone());
+        let b = InstanceBuilder::new(class).with_name("lacks");
+        let root = if order == 0 { InstanceBuilder::new("DataModel").with_child(a).with_child(b) } else { InstanceBuilder::new("DataModel").with_child(b).with_child(a) };
+        let dom = WeakDom::new(root);
+        let bytes = match serialize(&dom) {
+            Ok(Ok(b)) => b,
+            // a value the writer refuses is outside the premise
+            Ok(Err(_)) => return out,
+            Err((s, m)) => {
+                out.push((format!("c08|panic|{}", crate::evidence::panic_signature(&s, &m)), format!("rbx_binary panicked at {}: {}", s, m)));
+                return out;
+            }
+        };
+        let d2 = match crate::evidence::guarded(|| rbx_binary::from_reader(bytes.as_slice()).map_err(|e| e.to_string())) {
+            Ok(Ok(d)) => d,
+            _ => {
+                out.push((format!("c08|db-default|unreadable|{}", r(&dflt).split(':').next().unwrap_or("")), format!("[{}{{{}}}, {}{{}}] cannot be read back", class, c.prop, class)));
+                return out;
+            }
+        };
+        let lacks = d2.root().children().iter().filter_map(|r| d2.get_by_ref(*r)).find(|i| i.name == "lacks");
+        match lacks.and_then(|i| i.properties.get(&want.0.as_str().into())) {
+            Some(g) if r(g) == r(&want.1) => {}
+            other_got => out.push((
+                format!("c08|db-default|{}", if other_got.is_none() { "missing" } else { "value" }),
+                format!("[{}{{{}={}}}, {}{{}}] (order {}): the instance that lacks {} should read back with the class default {} but shows {:?}", class, c.prop, r(&other).chars().take(60).collect::<String>(), class, order, c.prop, r(&want.1).chars().take(80).collect::<String>(), other_got.map(|g| r(g).chars().take(80).collect::<String>())),
+            )),
+        }
+    }
+    out
+}
+
 pub fn check(run: &Run) -> Value {
     let cs = cases(run.tier);
     let seed = run.seed;
@@ -377,9 +464,23 @@ pub fn check(run: &Run) -> Value {
             out.samples.push(serde_json::to_string(c).unwrap());
         }
     });
+    let mut total = total;
+    let dbc = db_cases();
+    let o = run_cases(&dbc, &|_, c, out| {
+        out.nontrivial += 1;
+        out.executions += 2;
+        let vs = judge_db(c);
+        out.outcome(if vs.is_empty() { "db-default-ok" } else { "db-default-violation" });
+        for (k, w) in vs {
+            out.violation(k, w, || serde_json::to_value(c).unwrap());
+        }
+    });
+    let db_pairs = o.cases;
+    total.merge(o);
     total.report(run);
-    println!("C08 sweep: doms={} serializations={} outcomes={:?}", total.cases, total.executions, total.outcomes);
+    println!("C08 sweep: doms={} serializations={} outcomes={:?} db-wide default pairs={}", total.cases, total.executions, total.outcomes, db_pairs);
     json!({
+        "database_wide_default_fill_pairs": db_pairs,
         "states": total.cases,
         "transitions": total.executions,
         "traces_validated_against_impl": total.executions,
@@ -394,6 +495,10 @@ pub fn check(run: &Run) -> Value {
 }
 
 pub fn replay(case: &Value) -> Vec<(String, String)> {
+    if case.get("prop").is_some() {
+        let c: CaseDb = serde_json::from_value(case.clone()).unwrap_or_else(|e| crate::evidence::machinery_failure(&format!("bad replay: {}", e)));
+        return judge_db(&c);
+    }
     let c: Case08 = serde_json::from_value(case.clone()).unwrap_or_else(|e| crate::evidence::machinery_failure(&format!("bad replay: {}", e)));
     let a = judge(&c);
     let b = judge(&c);
